@@ -89,3 +89,29 @@ contract("dumpers:TimePointDumper.strftime", use_at_calls=False, opaque=["dby"],
          cases=sf_cases(),
          note="per directive: the template and the values its conversions print are those "
               "POSIX defines over the civil date-time")
+
+
+# ---------------------------------------------------------------- CLI helpers (C19)
+def _dd_cases():
+    from .shapes import TIMES
+    out = []
+    for (d1, t1, d2, t2) in (("cal", "hms", "cal", "hms"), ("ord", "hm", "week", "h"),
+                             ("week", "hms", "cal", "h")):
+        def build(E, st, d1=d1, t1=t1, d2=d2, t2=t2):
+            return {"time_point_1": mk_timepoint(E, st, "time_point_1", d1, t1),
+                    "time_point_2": mk_timepoint(E, st, "time_point_2", d2, t2)}
+        out.append(Case("%s-%s/%s-%s" % (d1, t1, d2, t2), build))
+    return out
+
+
+contract(
+    "datetimeoper:DateTimeOperator.date_diff", use_at_calls=False,
+    requires=["normal24(time_point_1)", "normal24(time_point_2)"],
+    ensures=[
+        "dlen(result[0]) >= 0 and d_years(result[0]) == 0 and d_months(result[0]) == 0",
+        "(result[1] == '-') == (instant(time_point_2) < instant(time_point_1))",
+        "instant(time_point_1) + (-dlen(result[0]) if result[1] == '-' else dlen(result[0]))"
+        " == instant(time_point_2)",
+        "unchanged(time_point_1)", "unchanged(time_point_2)"],
+    cases=_dd_cases(),
+    note="the printed duration d (with its sign) satisfies first + d == second")
